@@ -28,7 +28,7 @@ ASSUMPTIONS = ["affine matrix equality is compared on the exact stream (dyadic s
 
 
 def n_cases(tier):
-    return 300 if tier == "quick" else 6000
+    return 2000 if tier == "quick" else 16000
 
 
 def gen_one(rng, i, tier):
